@@ -128,6 +128,28 @@ def run(ctx, rep):
            "fd_to_conn[fd] is removed after conn.close(): closing frees the descriptor number, a client accepted meanwhile is "
            "registered under the same number and the late removal deletes the new client's entry (never served, never closed)",
            fdc.loc)
+    from . import c16
+    c16.check_sigchld(ctx, rep, ctx.func(SRV + ".ForkingServer._handle_sigchld"), "R17.2")
+    # untracking removes the socket that was tracked: the accepted one (the parameter), not a socket it was later rebound to
+    for c in sorted(concrete, key=lambda x: x.name):
+        for mname in ("_accept_method", "_authenticate_and_serve_client"):
+            m = ctx.repo.method(c, mname)
+            if m is None:
+                continue
+            gm = ctx.cfg(m)
+            rdm = Q.ReachingDefs(gm)
+            for n in gm.live:
+                if n.ast is None or n.kind != "stmt":
+                    continue
+                for cc in A.calls(n.ast):
+                    if (A.call_name(cc) or "") in ("self.clients.discard", "self.clients.remove") and cc.args and \
+                            isinstance(cc.args[0], ast.Name):
+                        defs = rdm.at(n, cc.args[0].id)
+                        okp = defs == {"param"}
+                        rep.ob("R17.2", "%s.%s: `%s` removes the accepted socket itself" % (c.name, mname, A.norm(cc)), okp,
+                               "the argument is the unmodified socket parameter" if okp else
+                               "`%s` may have been rebound (e.g. to the socket the authenticator returned) before it is removed "
+                               "from the tracking set: the raw accepted socket stays tracked for ever" % cc.args[0].id, ctx.loc(cc))
     fk = ctx.func(SRV + ".ForkingServer._accept_method")
     g = ctx.cfg(fk, raises=quiet_logging_raises)
     rep.analysed(fk, g)
